@@ -383,8 +383,11 @@ fn check_case_inner(cx: &mut Ctx, case: &Case, mut rep: Option<&mut Report>) -> 
                 e.verif_write_mem(sp.wrapping_sub(1), (pc >> 8) as u8, 0);
                 e.verif_write_mem(sp.wrapping_sub(2), pc as u8, 0);
             }
-            e.verif_set_frame_clocks(0);
-            rcv.verif_set_frame_clocks(0);
+            // both at the same frame position; forward only (the hook moves the clock alone, and a clock behind the
+            // position the ULA has already drawn is no state of the real machine)
+            let t = e.verif_frame_clocks().max(rcv.verif_frame_clocks());
+            e.verif_set_frame_clocks(t);
+            rcv.verif_set_frame_clocks(t);
             let a = run_steps(&mut e, 4);
             let b = run_steps(&mut rcv, 4);
             if let Some(r) = rep.as_deref_mut() {
